@@ -2,42 +2,11 @@
   C06 — scene level: the document carries exactly the scene (`carriesScene`).
 -/
 import PolyVerif.Props.C06Data
+import PolyVerif.Props.C06Zip
 
 namespace PolyVerif
 namespace C06
 open Gltf
-
-/-! ### pairing two lists -/
-
-def Zip {α β} (R : α → β → Prop) : List α → List β → Prop
-  | [], [] => True
-  | a :: l, b :: r => R a b ∧ Zip R l r
-  | _, _ => False
-
-theorem zip_imp {α β} {R R' : α → β → Prop} (h : ∀ a b, R a b → R' a b) : ∀ {l : List α} {r : List β}, Zip R l r → Zip R' l r
-  | [], [], _ => trivial
-  | _ :: _, _ :: _, hz => ⟨h _ _ hz.1, zip_imp h hz.2⟩
-  | [], _ :: _, hz => hz.elim
-  | _ :: _, [], hz => hz.elim
-
-theorem zip_snoc {α β} {R : α → β → Prop} : ∀ {l : List α} {r : List β} {a : α} {b : β}, Zip R l r → R a b → Zip R (l ++ [a]) (r ++ [b])
-  | [], [], _, _, _, hab => ⟨hab, trivial⟩
-  | _ :: _, _ :: _, _, _, hz, hab => ⟨hz.1, zip_snoc hz.2 hab⟩
-  | [], _ :: _, _, _, hz, _ => hz.elim
-  | _ :: _, [], _, _, hz, _ => hz.elim
-
-theorem zip_length {α β} {R : α → β → Prop} : ∀ {l : List α} {r : List β}, Zip R l r → l.length = r.length
-  | [], [], _ => rfl
-  | _ :: _, _ :: _, hz => by simp [zip_length hz.2]
-  | [], _ :: _, hz => hz.elim
-  | _ :: _, [], hz => hz.elim
-
-theorem allZip_of_zip {α β} {R : α → β → Prop} {p : α → β → Bool} (h : ∀ a b, R a b → p a b = true) :
-    ∀ {l : List α} {r : List β}, Zip R l r → allZip p l r = true
-  | [], [], _ => rfl
-  | _ :: _, _ :: _, hz => by simp [allZip, h _ _ hz.1, allZip_of_zip h hz.2]
-  | [], _ :: _, hz => hz.elim
-  | _ :: _, [], hz => hz.elim
 
 /-! ### what it means for a node to carry a model -/
 
@@ -465,16 +434,6 @@ theorem carries_of_Carries (s : Scene) (w : W) (md : Model) (n : GNode) (h : Car
 /-- scene hypotheses of `gltf_carries_scene`: well-formed meshes and instances, and within each mesh pairwise different glTF
     names of the written attributes -/
 def SceneOK3 (s : Scene) : Prop := SceneOK s ∧ ∀ m ∈ s.meshHeap, KeysOK m
-
-theorem zip_mem_right {α β} {R : α → β → Prop} : ∀ {l : List α} {r : List β}, Zip R l r → ∀ b ∈ r, ∃ a, R a b
-  | [], [], _, b, hb => by cases hb
-  | _ :: _, _ :: _, hz, b, hb => by
-    simp only [List.mem_cons] at hb
-    rcases hb with rfl | hb
-    · exact ⟨_, hz.1⟩
-    · exact zip_mem_right hz.2 b hb
-  | [], _ :: _, hz, _, _ => hz.elim
-  | _ :: _, [], hz, _, _ => hz.elim
 
 /-- every node of the final document is the node of a visible model (carrying it) or a light node -/
 theorem scene_nodes_structure (s : Scene) (w : W) (hs : SceneOK s) (h : writeScene s = .ok w) :
